@@ -1,5 +1,6 @@
 import IGVerif.Model.Tab
 import IGVerif.Proofs.JsonValid
+import IGVerif.Proofs.RefsDecode
 /-! C06 — statement IDs are unique and every reference resolves. -/
 namespace IGVerif.C06
 open IGVerif IGVerif.Tab
@@ -49,4 +50,12 @@ theorem register_new (reg : List Nested) (stmtId : Str) (key : List Nat) (n : PN
     (register reg stmtId key n f p).1.length = reg.length + 1 := by
   simp [register, h]
 
+end IGVerif.C06
+
+namespace IGVerif.C06
+open IGVerif
+/-- compressed ranges (`3-5`) in reference and linkage cells denote exactly the rows they were
+    built from: nothing is lost, added or shifted by the range compressor -/
+theorem compressed_references_denote_their_rows (ids : List Nat) (hs : ids.Pairwise (· < ·)) :
+    Refs.decode (Refs.build ids) = ids.map (· + 1) := Refs.decode_build ids hs
 end IGVerif.C06
